@@ -144,6 +144,9 @@ fn build(tier: Tier) -> Vec<Scenario> {
             }
         }
     }
+    if tier == Tier::Quick {
+        crate::props::common::deepen(&mut out, &|n| (n.contains("/depth1/") || n.contains("/depth2/")) && n.contains("Adaptive") && n.ends_with("/p1"));
+    }
     out
 }
 
